@@ -575,7 +575,7 @@ fn gen(tier: &str, seed: u64, shard: u64, nshards: u64) {
     } else {
         exhaustive(&full, 4, "bdd", &mut emit);
         for dd in &kinds[1..] {
-            exhaustive(&small, 3, dd, &mut emit);
+            exhaustive(&full, 3, dd, &mut emit);
         }
     }
     // (b) handles across adding calls: a fixed prelude that creates handles,
@@ -602,7 +602,7 @@ fn gen(tier: &str, seed: u64, shard: u64, nshards: u64) {
     }
     // (c) random longer sequences with unicode names, handle creation, gc
     // (and reordering when VERIF_C16_REORDER=1)
-    let nrand = if tier == "thorough" { 60000 } else { 6000 };
+    let nrand = if tier == "thorough" { 60000 } else { 10000 };
     for i in 0..nrand {
         let dd = kinds[i % kinds.len()];
         let s = rng.next() >> 16;
